@@ -42,6 +42,8 @@ def sub_expr(e, env):
         return v[1] if v is not None else e
     if k in ("var", "len"):
         v = env.get(e[1])
+        if k == "var" and v is not None and v[0] == "e":
+            return v[1]          # a name spelled like an expr parameter of this macro is that parameter
         return (k, v[1]) if v is not None and v[0] == "id" else e
     if k == "idx":
         v = env.get(e[1])
@@ -78,7 +80,7 @@ def inline_body(body, env, macros, depth=0):
                     args.append(("e", sub_expr(a[1], env)))
                 else:
                     v = env.get(a[1])
-                    args.append(v if v is not None else a)
+                    args.append(v if v is not None and v[0] == "id" else a)      # (a match / expr parameter of that name is another namespace)
             new_env = {pn: av for (pk, pn), av in zip(params, args)}
             out.extend(inline_body(mbody, new_env, macros, depth + 1))
         elif k == "match":
@@ -183,6 +185,8 @@ def macro_body(draw, params, lower, use_yield):
     for lname, lparams in lower.items():
         if draw(st.integers(0, 1)) == 0:
             continue
+        if any(pn == lname for _, pn in params):
+            continue        # the name means the parameter in this body, not the global macro
         args = []
         ok = True
         for lgk, lpn in lparams:
@@ -197,8 +201,9 @@ def macro_body(draw, params, lower, use_yield):
                 else:
                     args.append(("id", pn))
             else:
-                a = draw(concrete_arg(lgk, lower, use_yield))
-                if a is None:
+                # (global names that a parameter of this macro shadows cannot be meant here)
+                a = draw(concrete_arg(lgk, {n_: p_ for n_, p_ in lower.items() if not any(pn_ == n_ for _, pn_ in params)}, use_yield))
+                if a is None or (a[0] == "id" and any(pn_ == a[1] for _, pn_ in params)):
                     ok = False
                     break
                 args.append(a)
@@ -253,7 +258,14 @@ def macro_program(draw):
                 continue
             if gk == "macro" and not any(not ps for ps in macros.values()):
                 continue
-            params.append((gk, names.pop()))
+            pname = names.pop()
+            # a parameter may carry the name of something global of another kind: an expr parameter called like the output n1 (which the
+            # arguments mention), a hook / macro parameter called like an earlier macro
+            if gk == "expr" and draw(st.integers(0, 3)) == 0 and not any(p[1] == "n1" for p in params):
+                pname = "n1"
+            elif gk in ("hook", "macro") and i > 0 and draw(st.integers(0, 3)) == 0 and not any(p[1] == "mac0" for p in params):
+                pname = "mac0"
+            params.append((gk, pname))
         body = draw(macro_body(params, dict(macros), use_yield))
         name = "mac%d" % i
         macros[name] = params
